@@ -225,7 +225,11 @@ private:
         m_base_dom(std::move(base_dom)),
         m_rgn_env(std::move(rgn_env)), m_tag_env(std::move(tag_env)),
         m_alloc_env(std::move(alloc_env)),
-        m_rgn_equiv_classes(std::move(rgn_equiv_classes)) {}
+        m_rgn_equiv_classes(std::move(rgn_equiv_classes)) {
+    // ghost_var_man was built from another abstract state: its type
+    // function still refers to that state's m_rgn_env.
+    m_ghost_var_man.rebind_get_type(get_type_fn());
+  }
 
   using base_dom_binop_t = std::function<base_abstract_domain_t(
       base_abstract_domain_t, base_abstract_domain_t)>;
@@ -665,6 +669,7 @@ public:
         m_rgn_equiv_classes(o.m_rgn_equiv_classes) {
     crab::CrabStats::count(domain_name() + ".count.copy");
     crab::ScopedCrabStats __st__(domain_name() + ".copy");
+    m_ghost_var_man.rebind_get_type(get_type_fn());
   }
   region_domain(region_domain_t &&o)
       : m_is_bottom(o.m_is_bottom),
@@ -673,7 +678,9 @@ public:
         m_rgn_env(std::move(o.m_rgn_env)),
         m_tag_env(std::move(o.m_tag_env)),
         m_alloc_env(std::move(o.m_alloc_env)),
-        m_rgn_equiv_classes(std::move(o.m_rgn_equiv_classes)) {}
+        m_rgn_equiv_classes(std::move(o.m_rgn_equiv_classes)) {
+    m_ghost_var_man.rebind_get_type(get_type_fn());
+  }
 
   region_domain_t &operator=(const region_domain_t &o) {
     crab::CrabStats::count(domain_name() + ".count.copy");
@@ -686,6 +693,7 @@ public:
       m_tag_env = o.m_tag_env;
       m_alloc_env = o.m_alloc_env;
       m_rgn_equiv_classes = o.m_rgn_equiv_classes;
+      m_ghost_var_man.rebind_get_type(get_type_fn());
     }
     return *this;
   }
@@ -699,6 +707,7 @@ public:
       m_tag_env = std::move(o.m_tag_env);
       m_alloc_env = std::move(o.m_alloc_env);
       m_rgn_equiv_classes = std::move(o.m_rgn_equiv_classes);
+      m_ghost_var_man.rebind_get_type(get_type_fn());
     }
     return *this;
   }
